@@ -12,7 +12,7 @@ use crate::util::J;
 use lzma_rs::decompress::UnpackedSize;
 
 const API: [&str; 3] = ["one-shot", "stream", "raw decoder"];
-const LIMITS: [&str; 10] = ["0", "1", "need-1", "need", "need+1", "dict-1", "dict", "dict+1", "usize::MAX", "random"];
+const LIMITS: [&str; 14] = ["0", "1", "need-1", "need", "need+1", "dict-1", "dict", "dict+1", "usize::MAX", "random", "2^32", "2^32+1", "header dict field - 1", "header dict field"];
 
 struct Run {
     verdict: Verdict,
@@ -44,13 +44,16 @@ fn fam_limits(ctx: &CaseCtx, cov: &mut Cov) -> CaseOut {
     let mut out = CaseOut::default();
     let mut rng = ctx.rng();
     let props = if rng.chance(1, 2) { Props::new(3, 0, 2) } else { Props::new(rng.below(5) as u32, rng.below(3) as u32, rng.below(5) as u32) };
-    let dict: u32 = *rng.pick(&[4096u32, 4096, 8192, 1 << 16, 1 << 20]);
+    // header values below 4096 behave as 4096 (the raw decoder takes them literally)
+    let dict_field: u32 = *rng.pick(&[4096u32, 4096, 8192, 1 << 16, 1 << 20, 0, 1, 100, 4095, 4097, 5000]);
+    let api = rng.usize_below(3);
+    let dict: u32 = if api == 2 { dict_field.max(1) } else { dict_field.max(4096) };
     let d = dict as u64;
     // output length: 0 .. 3 * dict, with emphasis on the wrap point
     let target: u64 = match rng.below(8) {
         0 => 0,
         1 => rng.range(1, 20),
-        2 => d - rng.below(3),
+        2 => d.saturating_sub(rng.below(3)),
         3 => d + rng.below(3),
         4 => rng.range(1, d),
         _ => rng.range(1, (3 * d).min(ctx.tier.pick(300_000, 3 << 20))),
@@ -67,11 +70,10 @@ fn fam_limits(ctx: &CaseCtx, cov: &mut Cov) -> CaseOut {
         None => return out,
     };
     let len = enc.output.len() as u64;
-    let api = rng.usize_below(3);
     let (hdr, us) = if rng.chance(1, 2) {
-        (sut::lzma_header(props.byte(), dict, Some(Some(len))), UnpackedSize::ReadFromHeader)
+        (sut::lzma_header(props.byte(), dict_field, Some(Some(len))), UnpackedSize::ReadFromHeader)
     } else {
-        (sut::lzma_header(props.byte(), dict, None), UnpackedSize::UseProvided(Some(len)))
+        (sut::lzma_header(props.byte(), dict_field, None), UnpackedSize::UseProvided(Some(len)))
     };
     let payload_at = hdr.len();
     let mut file = hdr;
@@ -106,6 +108,10 @@ fn fam_limits(ctx: &CaseCtx, cov: &mut Cov) -> CaseOut {
         (7, dict as usize + 1),
         (8, usize::MAX),
         (9, rng.range(0, (2 * d).max(2)) as usize),
+        (10, 1usize << 32),
+        (11, (1usize << 32) + 1),
+        (12, (dict_field as usize).saturating_sub(1)),
+        (13, dict_field as usize),
     ];
     for (li, m) in limits {
         let measure = rng.chance(1, 4);
@@ -177,7 +183,7 @@ fn label(group: &str, i: u32) -> String {
 
 fn floors(_: Tier, cov: &Cov) -> Vec<String> {
     let mut m = Vec::new();
-    if cov.group_nonzero("api") < 3 || cov.group_nonzero("limit") < 10 || cov.group_nonzero("limit_sufficient") < 3 || cov.group_nonzero("limit_too_small") < 3 {
+    if cov.group_nonzero("api") < 3 || cov.group_nonzero("limit") < 14 || cov.group_nonzero("limit_sufficient") < 3 || cov.group_nonzero("limit_too_small") < 3 {
         m.push("api x limit grid incomplete".into());
     }
     m
@@ -187,7 +193,7 @@ pub fn monitor(tier: Tier) -> Monitor {
     Monitor {
         id: "C10",
         level: "exploration",
-        rule: "per valid stream (dict 4096 / 8192 / 64 KiB / 1 MiB, output 0 .. 3 x dict with emphasis on the wrap point) an unlimited run measures the window actually needed (WinGrow hook), then limits {0, 1, need-1, need, need+1, dict-1, dict, dict+1, usize::MAX, random} are applied through the one-shot API, Stream (random chunking) and the raw decoder: m >= need must reproduce the unlimited result, m < need must fail, and the WinGrow hook must never report a buffer above m; a quarter of the runs use a non-storing sink and the counting allocator as a coarse second witness; distinct by hash of (file, api, limit)",
+        rule: "per valid stream (header dictionary field 0 / 1 / 100 / 4095 / 4096 / 4097 / 5000 / 8192 / 64 KiB / 1 MiB - values below 4096 act as 4096 except in the raw decoder -, output 0 .. 3 x dict with emphasis on the wrap point) an unlimited run measures the window actually needed (WinGrow hook), then limits {0, 1, need-1, need, need+1, dict-1, dict, dict+1, usize::MAX, random, 2^32, 2^32+1, header field - 1, header field} are applied through the one-shot API, Stream (random chunking) and the raw decoder: m >= need must reproduce the unlimited result, m < need must fail, and the WinGrow hook must never report a buffer above m; a quarter of the runs use a non-storing sink and the counting allocator as a coarse second witness; distinct by hash of (file, api, limit)",
         assumptions: vec![
             "need = the largest window length reported by the hook in the unlimited run; a warning is recorded if it differs from min(dict, produced)".into(),
             "allocator bound is deliberately loose (3 x limit + literal table + 1 MiB): Vec growth doubles".into(),
